@@ -921,7 +921,11 @@ static int _parse_inline(qaconf_t *qaconf, FILE *fp, uint8_t flags,
         // If not found.
         if (optfound == false) {
             if (qaconf->defcb != NULL) {
-                qaconf->defcb(cbdata, qaconf->userdata);
+                char *cberrmsg = qaconf->defcb(cbdata, qaconf->userdata);
+                if (cberrmsg != NULL) {
+                    freethis = cberrmsg;
+                    EXITLOOP("%s", cberrmsg);
+                }
             } else if ((flags & QAC_IGNOREUNKNOWN) == 0) {
                 EXITLOOP("Unregistered option '%s'.", cbdata->argv[0]);
             }
